@@ -2,7 +2,7 @@
    non-trivial runs (evaluated by vm_compute; these are examples, not the
    theorems). *)
 From stdpp Require Import gmap.
-From LV Require Import Circuit.Model Circuit.Proofs Circuit.Props.
+From LV Require Import Circuit.Model Circuit.Spec Circuit.Proofs Circuit.RestartProofs Circuit.RollbackProofs Circuit.Props.
 Local Open Scope N_scope.
 
 Definition k1 : key := (1, 0).
@@ -72,3 +72,105 @@ Example double_keystone_dangles :
   pending (c_mem c) !! k1 = None /\ opened (c_mem c) !! o1 <> None /\
   d_ks (c_disk c) !! o1 = Some k1.
 Proof. vm_compute. repeat split; try reflexivity. discriminate. Qed.
+
+(* ------------------------------------------------------------------ *)
+(* C07_restart_exact: its hypotheses hold for a disk with a block of two
+   uncommitted keystones above NextLocalHtlcIndex = 1 and one committed below *)
+Definition disk_ex2 : disk :=
+  Disk (<[(1,0):=5]> (<[(1,1):=6]> (<[(1,2):=7]> ∅)))
+       (<[(2,0):=(1,0)]> (<[(2,1):=(1,1)]> (<[(2,2):=(1,2)]> ∅))).
+Definition rc_ex2 : rconf := RConf [] [] [(2, false, Some 1, 0)].
+
+Ltac lookups :=
+  repeat match goal with
+  | H : <[_:=_]> _ !! _ = Some _ |- _ => apply lookup_insert_Some in H as [[? ?]|[? H]]
+  | H : ∅ !! _ = Some _ |- _ => rewrite lookup_empty in H; discriminate
+  end.
+
+Example restart_exact_hyp : contiguous_on_disk rc_ex2 disk_ex2 /\ single_keystone (d_ks disk_ex2).
+Proof.
+  split.
+  - intros a ch s Ha Hs j k Hl Hle i Hi.
+    apply elem_of_list_singleton in Ha. subst a. vm_compute in Hs. injection Hs as <- <-.
+    destruct Hl as (Hks & _). cbn in Hks. lookups; simplify_eq; try lia.
+    + assert (i = 1) as -> by lia. exists (1, 1). vm_compute. repeat split; try reflexivity; discriminate.
+    + assert (i = 1 \/ i = 2) as [-> | ->] by lia.
+      * exists (1, 1). vm_compute. repeat split; try reflexivity; discriminate.
+      * exists (1, 2). vm_compute. repeat split; try reflexivity; discriminate.
+  - intros o1' o2' k H1 H2. cbn in H1, H2. lookups; simplify_eq; reflexivity.
+Qed.
+
+Example restart_exact_ex :
+  let '(m', d') := restart rc_ex2 disk_ex2 0 in
+  opened m' !! (2,0) = Some (inr (1,0)) /\ opened m' !! (2,1) = None /\ opened m' !! (2,2) = None /\
+  d_ks d' !! (2,0) = Some (1,0) /\ d_ks d' !! (2,1) = None /\ d_ks d' !! (2,2) = None /\
+  classify (found_obj m' (1,0)) = ADrop /\ classify (found_obj m' (1,1)) = AFail /\
+  classify (found_obj m' (1,2)) = AFail /\ size (pending m') = 3%nat.
+Proof. vm_compute. repeat split; reflexivity. Qed.
+
+(* C07_rollback, DeleteCircuits clause: wf_out holds in a state with an open and
+   a half-open circuit, one of them closing, and the delete yields *)
+Example rollback_delete_ex :
+  let c := (run init [ICall 0 (CCommit [((1,0), 5); ((1,1), 6)]); IDisk 0 true; IMem 0;
+                      ICall 0 (COpen [((1,0), (2,0))]); IDisk 0 true; IMem 0;
+                      ICall 0 (CClose (2,0))]).1 in
+  wf_out (c_mem c) /\ c_thr c !! 1 = None /\
+  exists c1 k, step c (ICall 1 (CDelete [(1,0); (1,1)])) = (c1, OYield k) /\
+               opened (c_mem c1) !! (2,0) = None /\ size (pending (c_mem c1)) = 0%nat.
+Proof.
+  split; [apply wf_outb_sound; vm_compute; reflexivity|].
+  split; [vm_compute; reflexivity|]. eexists _, _. vm_compute. repeat split; reflexivity.
+Qed.
+
+(* ------------------------------------------------------------------ *)
+(* API-level hazards of circuit_map.go (kept in the model, replayed on the real
+   circuitMap by the harness "wit" cases).  None is producible by the call
+   discipline of link.go / switch.go -- see notes/C07.md. *)
+
+(* hazard 3: DeleteCircuits(k) racing an in-flight CommitCircuits(k): k is RETURNED
+   in Adds by two calls (steps 4 and 6) with no removal between the returns; the
+   removal lies between the two DECISIONS (steps 0 and 2), as C07_add_once says *)
+Example delete_races_commit :
+  let tr := (run init [ICall 0 (CCommit [(k1, 5)]); ICall 1 (CDelete [k1]); ICall 2 (CCommit [(k1, 6)]);
+                       IDisk 0 true; IMem 0; IDisk 2 true; IMem 2]).2 in
+  map ev_adds tr !! 4%nat = Some [k1] /\ map ev_adds tr !! 6%nat = Some [k1] /\
+  map ev_removed tr !! 5%nat = Some [] /\
+  map ev_add_decided tr !! 0%nat = Some [k1] /\ map ev_removed tr !! 1%nat = Some [k1] /\
+  map ev_add_decided tr !! 2%nat = Some [k1].
+Proof. vm_compute. repeat split; reflexivity. Qed.
+
+(* hazard 4: the same outgoing key twice in one OpenCircuits batch passes the
+   duplicate-keystone check; wf_out is lost, and deleting the first circuit
+   unregisters the keystone of the second: its response can no longer be routed *)
+Example dup_out_in_batch :
+  let c := (run init [ICall 0 (CCommit [((1,0), 5); ((1,1), 6)]); IDisk 0 true; IMem 0;
+                      ICall 0 (COpen [((1,0), (2,0)); ((1,1), (2,0))]); IDisk 0 true; IMem 0]).1 in
+  let '(c', tr) := run c [ICall 0 (CDelete [(1,0)]); IDisk 0 true; IMem 0; ICall 0 (CClose (2,0))] in
+  wf_outb (c_mem c) = false /\
+  classify (found_obj (c_mem c') (1,1)) = ADrop /\ opened (c_mem c') !! (2,0) = None /\
+  map (fun e => e.2) tr !! 3%nat = Some (OErr E_UNKNOWN_CIRCUIT).
+Proof. vm_compute. repeat split; reflexivity. Qed.
+
+(* hazard 2, worst consequence found: a FAILED TrimOpenCircuits transaction (memory
+   trimmed, disk not), then the link re-adds with shifted indices; after a restart
+   the stale keystone (2,2) -> (1,2) is trimmed and clears Outgoing of circuit (1,2)
+   although its real keystone (2,1) is below NextLocalHtlcIndex = 2 (committed): the
+   circuit is still registered under (2,1) but a re-forward would be FAILED back.
+   contiguous_on_disk holds here; single_keystone does not (C07_restart_exact's
+   last clause needs it).  Requires a kvdb write error that the process survives. *)
+Definition failed_trim_history : list input :=
+  [ ICall 0 (CCommit [((1,0), 5); ((1,1), 6); ((1,2), 7)]); IDisk 0 true; IMem 0;
+    ICall 0 (COpen [((1,0), (2,0)); ((1,1), (2,1)); ((1,2), (2,2))]); IDisk 0 true; IMem 0;
+    ICall 0 (CTrim 2 0); IDisk 0 false; IMem 0;
+    ICall 0 (CTrim 2 0);
+    ICall 0 (CFail (1,0)); ICall 0 (CDelete [(1,0)]); IDisk 0 true; IMem 0;
+    ICall 0 (COpen [((1,1), (2,0)); ((1,2), (2,1))]); IDisk 0 true; IMem 0 ].
+Definition failed_trim_rc : rconf := RConf [] [] [(2, false, None, 2)].
+
+Example failed_trim_stale_keystone :
+  let c := (run init failed_trim_history).1 in
+  let '(m', d') := restart failed_trim_rc (c_disk c) (next (c_mem c)) in
+  d_ks (c_disk c) !! (2,2) = Some (1,2) /\ d_ks (c_disk c) !! (2,1) = Some (1,2) /\
+  opened m' !! (2,1) = Some (inr (1,2)) /\ trimmed_by (rc_active failed_trim_rc) (2,1) = false /\
+  classify (found_obj m' (1,2)) = AFail /\ classify (found_obj m' (1,1)) = ADrop.
+Proof. vm_compute. repeat split; reflexivity. Qed.
